@@ -7,7 +7,7 @@
 (*                                                                              *)
 (* Properties decided on this model:                                            *)
 (*   C19  WindowRespected  PacketBound  NoOverGrant                              *)
-(*   C20  EveryByteCredited  Conservation  Progress (liveness, FairSpec)         *)
+(*   C20  EveryByteCredited  Conservation  NoStarvation  Progress (FairSpec)     *)
 (*   C22  EofOnce CloseOnce NoDataAfterCtl CloseAnswered ReleasedInv             *)
 (*        NoSendAfterRelease                                                     *)
 (*   C25  ReturnedMeansAll RaiseIfShut SendallNoSpin Progress                    *)
